@@ -25,22 +25,22 @@ def _run(ctx, res, env_extra=None):
         ctx["problems"].append({"kind": "harness-build", "what": "serial harness does not compile (%s)" % (k[0],), "detail": e})
     cereal = None
     ops = {}
+
+    def count(l):   # run_stream streams the harness output to the driver: count the op lines on the way
+        t = l.split(" ", 6)
+        if t[0] == "hist":
+            k = "hist/%s/%s" % (["raw", "binary", "portable-binary", "JSON"][int(t[1])], "poly_p" if t[5] == "1" else "poly")
+        elif t[0] in ("cereal", "cereal2", "cerealtrunc"):
+            k = "%s/%s/%s" % (t[0], ["binary", "portable-binary", "JSON"][int(t[1])], "poly_p" if t[5] == "1" else "poly")
+        else:
+            k = "%s/%s" % (t[0], "poly_p" if t[4] == "1" else "poly")
+        ops[k] = ops.get(k, 0) + 1
+        return True
+
     for (name, b), exe in sorted(exes.items()):
-        e = dict(os.environ)
-        e.update(env_extra or {})
-        h = cl.run_stream(res, name, exe, env=env_extra)
-        if h is None:
-            continue
-        for l in h.stdout.splitlines():
-            if l.startswith("# cereal"):
-                cereal = l.split()[2] == "1"
-                continue
-            t = l.split(" ", 6)
-            if t[0] in ("cereal", "cereal2", "cerealtrunc"):
-                k = "%s/%s/%s" % (t[0], ["binary", "portable-binary", "JSON"][int(t[1])], "poly_p" if t[5] == "1" else "poly")
-            else:
-                k = "%s/%s" % (t[0], "poly_p" if t[4] == "1" else "poly")
-            ops[k] = ops.get(k, 0) + 1
+        cl.run_stream(res, name, exe, env=env_extra, line_filter=count)
+    if exes:
+        cereal = any(k.startswith("cereal") for k in ops)
     return cereal, ops
 
 
@@ -73,7 +73,7 @@ def search(ctx, res, problems):
 
 PROP = {
     "streams": streams, "search": search,
-    "rule": "raw serialise (bytes compared one by one with the documented layout), raw deserialise from streams cut at EVERY byte offset 0…n·m·w/8, of exact length, and longer (rest of stream compared), arbitrary byte streams, three polynomials back to back (complete and cut streams, sticky failbit), write→read round trips, operator<< text (parsed back by the verified parser), cereal binary/portable-binary/JSON round trips, two objects per archive, truncated archives; poly and poly_p; words random (non-canonical), canonical, 0, 2^w-1, distinct-byte ramp, second-half-only; canaries around the plain object + ASan; distinct = distinct lines",
+    "rule": "raw serialise (bytes compared one by one with the documented layout), raw deserialise from streams cut at EVERY byte offset 0…n·m·w/8, of exact length, and longer (rest of stream compared), arbitrary byte streams, three polynomials back to back (complete and cut streams, sticky failbit), write→read round trips, operator<< text (parsed back by the verified parser), cereal binary/portable-binary/JSON round trips, two objects per archive, truncated archives; histories of statements (write / read / copy / element store) over 1…8 variables and ONE stream, raw and every cereal archive, where the receiving object of a read has a past: old contents, written before, poly_p storage shared with 1…4 other handles (copy constructors, copy assignment, std::vector<poly_p>(k, prototype) with the prototype destroyed or alive), reads back to back into handles that share with each other, writes of shared handles, a read when nothing is left (sticky failbit) — contents of ALL variables after EVERY statement compared with the value-level reading; poly and poly_p; words random (non-canonical), canonical, 0, 2^w-1, distinct-byte ramp, second-half-only; canaries around the plain object + ASan; distinct = distinct lines",
     "trusted_base": COMMON_TB + ["iostream contracts: ostream::write appends the bytes; istream::read extracts min(requested, available) bytes, leaves the rest of the buffer untouched and sets failbit on a short read, is a no-op on a failed stream; operator<< on unsigned integers prints decimal digits (default flags)",
                                  "cereal (archive framing, C-array handling, JSON number formatting) is a contract: only the round trip through it is checked, by the harness",
                                  "the text parser used as oracle is the one proved inverse to the model's printer (text_roundtrip)"],
